@@ -78,7 +78,7 @@ static void check_wf(size_t n) {
   for (size_t i = 0; i < n; i++) {
     ASSERT(p != NULL && __CPROVER_r_ok((char*)p - sizeof(struct Header) - 2 * sizeof(var), NODE_BYTES), "every node of the chain is a live allocation");
     ASSERT(PREV(p) == prev, "prev links mirror next links");
-    ASSERT(cv_is_elem(p) && HDR(p)->alloc == (var)AllocData, "[C19] every element carries (element type, Data) in its header");
+    ASSERT(cv_is_elem(p) && ALLOC_IS(p, AllocData), "[C19] every element carries (element type, Data) in its header");
     ASSERT(ET(p) > 0 && ET(p) < CV_NTOK && cv_live[ET(p)], "[C05] every contained element is live (never finalised while contained)");
     prev = p; p = NEXT(p);
   }
@@ -142,7 +142,7 @@ void h_get_set(void) {
   var e = List_Get(l, $I(IDX));
   ASSERT(in_range, "[C12] get with an out-of-range index raises IndexOutOfBoundsError");
   ASSERT(e == old_node[p] && EV(e) == in_v[p], "[C04] get(i) is the i-th element (negative i counts from the end)");
-  ASSERT(cv_is_elem(e) && HDR(e)->alloc == (var)AllocData && type_of(e) == ELEM, "[C19] an object obtained from a List carries the element type");
+  ASSERT(cv_is_elem(e) && ALLOC_IS(e, AllocData) && type_of(e) == ELEM, "[C19] an object obtained from a List carries the element type");
   List_Set(l, $I(IDX), x);
   check_wf(N);
   for (int j = 0; j < N; j++) ASSERT(node_at(j) == old_node[j] && VAL(j) == (j == p ? in_x : in_v[j]) && TOK(j) == old_tok[j], "[C04] set replaces exactly the addressed element's value");
